@@ -108,6 +108,21 @@ def c02(seed, tier):
         aux.append(a)
         base = [x for x in types if x[1]["go"] == under["go"]]
         add("F_" + nm, t, base[0][2] if base else [lambda p: {"path": p, "vk": "arr"}])
+    # named types WITH methods (IsZero, String, Len, Error, Validate ...): a named type behaves like its underlying type,
+    # whatever its method set says about "zero" or "empty"
+    for nm, under, methods in (
+            ("MSlice", SLICE, "func (x MSlice) IsZero() bool { return len(x) == 0 }\nfunc (x MSlice) Len() int { return 7 }"),
+            ("MMap", MAP, "func (x MMap) IsZero() bool { return len(x) == 0 }\nfunc (x MMap) IsEmpty() bool { return true }"),
+            ("MArr", array(2), "func (x MArr) IsZero() bool { return true }"),
+            ("MStr", basic("string"), "func (x MStr) IsZero() bool { return x != \"\" }\nfunc (x MStr) String() string { return \"s\" }"),
+            ("MInt", basic("int16"), "func (x *MInt) IsZero() bool { return x == nil || *x != 0 }\nfunc (x MInt) Validate() error { return nil }"),
+            ("MBool", basic("bool"), "func (x MBool) IsZero() bool { return bool(x) }\nfunc (x MBool) Error() string { return \"e\" }"),
+            ("MF", basic("float64"), "func (x MF) IsZero() bool { return x == 1 }\nfunc (x MF) Equal(y MF) bool { return true }"),
+            ("MChan", CHAN, "func (x MChan) IsZero() bool { return false }\nfunc (x MChan) IsNil() bool { return false }")):
+        a, t = named(nm, under)
+        aux.append(a + "\n" + methods)
+        base = [x for x in types if x[1]["go"] == under["go"]]
+        add("F_" + nm, t, base[0][2] if base else [lambda p: {"path": p, "vk": "arr"}])
     a, t = alias("ASlice", SLICE)
     aux.append(a)
     add("F_ASlice", t, [lambda p: set_coll(p, True, 0), lambda p: set_coll(p, False, 0), lambda p: set_coll(p, False, 1)])
@@ -501,8 +516,44 @@ def c07(seed, tier):
         cases = cases_from_lattices(rng, lat, per, exhaustive_bits=min(5, len(lat)))
         cases.append(case([], nil=True))
         scen.append(scenario("c07s%d" % i, [struct("T", fields, cases)]))
+    scen += name_variety("c07n")
     scen += known_shapes("c07k")
     return {"scenarios": scen}
+
+
+def name_variety(prefix):
+    """identifiers that stress the naming scheme of error variables and paths: underscores, digits, non-ASCII letters,
+    names containing rule names or the generated file's own identifiers, unexported type names"""
+    s, i64 = basic("string"), basic("int")
+    out = []
+    fnames = ["A_b", "X_", "Ñame", "Ünïcode9", "HTTPServer2", "Required", "Validation", "Err", "Errs", "Ctx", "T", "Min", "MaxLen", "GT", "Is", "Value", "Path"]
+    fields = []
+    for k, nm in enumerate(fnames):
+        if k % 2 == 0:
+            fields.append(fld(nm, ["//govalid:required", "//govalid:maxlength=3"], s))
+        else:
+            fields.append(fld(nm, ["//govalid:gt=1", "//govalid:lte=5"], i64))
+    bad = case([set_str(nm, b"toolong") if k % 2 == 0 else set_int(nm, 9) for k, nm in enumerate(fnames)])
+    good = case([set_str(nm, b"ok") if k % 2 == 0 else set_int(nm, 3) for k, nm in enumerate(fnames)])
+    half = case([set_str(nm, b"ok") if k % 4 == 0 else set_str(nm, b"") if k % 2 == 0 else set_int(nm, 1 if k % 3 else 4) for k, nm in enumerate(fnames)])
+    for tn in ("Names", "My_Type", "Über", "T9_", "ErrNil", "Validator"):
+        out.append(scenario("%s%s" % (prefix, tn.encode().hex()[:10]), [struct(tn, fields, [case([]), bad, good, half, case([], nil=True)])]))
+    # an unexported struct type: cannot be driven from another package (no cases), must still generate and compile
+    out.append(scenario(prefix + "unexp", [struct("lower", fields[:6], []), struct("under_score", fields[:4], [])]))
+    # unexported fields next to exported twins that differ only in the case of the first letter; a name that is a prefix of another
+    tw = [fld("login", ["//govalid:required"], s), fld("Login", ["//govalid:required"], s), fld("age", ["//govalid:gt=0"], i64), fld("Age", ["//govalid:gt=17"], i64),
+          fld("a", [], nested=[fld("name", ["//govalid:minlength=2"], s)]), fld("A", [], nested=[fld("Name", ["//govalid:minlength=3"], s)]),
+          fld("ab", ["//govalid:required"], s), fld("aB", ["//govalid:required"], s)]
+    out.append(scenario(prefix + "twin", [struct("Account", tw, [
+        case([]), case([set_str("login", b"Bob"), set_int("age", 30), set_int("Age", 30)]), case([set_str("Login", b"bob"), set_int("age", 30), set_int("Age", 30), set_str("ab", b"x")]),
+        case([set_str("login", b"Bob"), set_str("Login", b"bob"), set_int("age", 12), set_int("Age", 12), set_str("a.name", b"xy"), set_str("A.Name", b"xy"), set_str("aB", b"x")]),
+        case([set_str("login", b"Bob"), set_str("Login", b"bob"), set_int("age", 30), set_int("Age", 30), set_str("a.name", b"x"), set_str("A.Name", b"xyz"), set_str("ab", b"x"), set_str("aB", b"x")])])]))
+    # nested with exotic names
+    nf = [fld("Out_er", [], nested=[fld("In_ner", ["//govalid:required"], s), fld("Ñ", [], nested=[fld("Deep_1", ["//govalid:minlength=2"], s)])]),
+          fld("Z9", ["//govalid:email"], s)]
+    out.append(scenario(prefix + "nest", [struct("N_1", nf, [case([]), case([set_str("Out_er.In_ner", b"x"), set_str("Out_er.Ñ.Deep_1", b"ab"), set_str("Z9", b"a@b.cd")]),
+                                                        case([set_str("Out_er.Ñ.Deep_1", b"a"), set_str("Z9", b"a@b")])])]))
+    return out
 
 
 def known_shapes(prefix):
@@ -626,6 +677,19 @@ def c09(seed, tier):
     k1 = struct("K1", [fld("A", [], s)], [case([]), case([set_str("A", b"abcd")]), case([set_str("A", b"ab")])], specdoc=["//govalid:minlength=3"])
     k2 = struct("K2", [fld("A", [], s)], [case([]), case([set_str("A", b"abcd")]), case([set_str("A", b"ab")])], specdoc=["// prose only"])
     scen.append(scenario("c09grpdoc2", [k1, k2], grouped=True, groupdoc=["//govalid:minlength=1", "//govalid:maxlength=3"]))
+    # the same marker on the struct declaration AND on a field, with different parameters: both rules govern the field
+    scen.append(scenario("c09same", [
+        struct("Account", [fld("Code", [], s), fld("Name", ["//govalid:maxlength=10"], s), fld("Age", [], i64), fld("Level", ["//govalid:gte=0"], i64),
+                           fld("Nick", ["//govalid:maxlength=2", "//govalid:minlength=1"], s)],
+               [case([]), case([set_str("Code", b"abc"), set_str("Name", b"1234567"), set_int("Age", 30), set_int("Level", 30), set_str("Nick", b"ab")]),
+                case([set_str("Code", b"abc"), set_str("Name", b"abc"), set_int("Age", 30), set_int("Level", 7), set_str("Nick", b"a")]),
+                case([set_str("Code", b"abcdefg"), set_str("Name", b"12345678901"), set_int("Age", 3), set_int("Level", -1), set_str("Nick", b"abc")]),
+                case([set_str("Code", b"abc"), set_str("Name", b"abc"), set_int("Age", 18), set_int("Level", 18), set_str("Nick", b"ab")])],
+               gendoc=["//govalid:maxlength=5", "//govalid:gte=18"]),
+        struct("Both", [fld("A", ["//govalid:required", "//govalid:enum=x,y"], s), fld("B", ["//govalid:enum=q"], s), fld("C", [], s)],
+               [case([]), case([set_str("A", b"x"), set_str("B", b"q"), set_str("C", b"x")]), case([set_str("A", b"x"), set_str("B", b"x"), set_str("C", b"q")]),
+                case([set_str("A", b"y"), set_str("B", b"q"), set_str("C", b"y")])],
+               gendoc=["//govalid:enum=x,y,q", "//govalid:required"])]))
     # embedded fields
     scen.append(scenario("c09emb", [
         struct("T", [fld([], [], T("Base", "TNamed TStructT", "opaque")), fld("A", [], s), fld([], ["//govalid:required"], T("*Base2", "TPointer", "nilable"))],
@@ -670,6 +734,7 @@ def c08(seed, tier):
     scen.append(scenario("c08esc", [struct("T", [
         fld("A", ['//govalid:enum=a"b,c\\d, e f'], s), fld("B", ["//govalid:enum=`,'"], s)],
         [case([]), case([set_str("A", b'a"b'), set_str("B", b"`")]), case([set_str("A", b"c\\d"), set_str("B", b"'")])])]))
+    scen += name_variety("c08n")
     scen += known_shapes("c08k")
     return {"scenarios": scen}
 
